@@ -177,6 +177,32 @@ def cases(rng, per_op):
                 "Der Text t ist %s.\nDer Text u ist %s.\nDie Zahl v ist t mit u verglichen.\n" % (T, lit_text(w)) +
                 'Wenn v gleich 0 ist, Schreibe "0" auf eine Zeile.\nWenn v größer als 0 ist, Schreibe "+" auf eine Zeile.\nWenn v kleiner als 0 ist, Schreibe "-" auf eine Zeile.\n',
                 lambda x: x + "\n")
+        # texts: the edge shapes every run (empty parts in front, in the middle, at the end; only separators)
+        for ts2 in ([[], [0x61], [0x62]], [[0x61], [], [0x62]], [[0x61], [0x62], []], [[], []], [[]], [[], [], [0xFC]], [[0x61]]):
+            add("verbinden-edge", "duden verbinden %s %d" % (enc_texts(ts2), c), "Die Text Liste tl ist %s.\nDer Buchstabe c ist %s.\n" % (lit_textlist(ts2), C) +
+                "Schreibe (tl mit dem Trennzeichen c zum Text verbunden) auf eine Zeile.\n", show_text)
+        for t2 in ([c], [c, c], [c, 0x61], [0x61, c], [c, 0x61, c], [0x61, c, c, 0x62], [0x61]):
+            td2 = "Der Text t ist %s.\nDer Buchstabe c ist %s.\n" % (lit_text(t2), C)
+            add("spalte-edge", "duden spalte %s %d" % (enc_ints(t2), c), td2 + "Die Text Liste r ist t an c gespalten.\n" + p_textlist("r"), show_textlist)
+            add("trim-edge", "duden trim %s %d" % (enc_ints(t2), c), td2 + "Schreibe (t mit allen c davor und danach entfernt) auf eine Zeile.\n", show_text)
+            add("trimAnfang-edge", "duden trimAnfang %s %d" % (enc_ints(t2), c), td2 + "Schreibe (t mit allen c davor entfernt) auf eine Zeile.\n", show_text)
+            add("trimEnde-edge", "duden trimEnde %s %d" % (enc_ints(t2), c), td2 + "Schreibe (t mit allen c danach entfernt) auf eine Zeile.\n", show_text)
+        # deleting from / inserting into a Text, finding and splitting at a Text
+        for t3 in ([0x61], [0x61, 0x62], [0x61, 0x62, 0x63], [0xE4, 0x20AC, 0x62, 0x1F600]):
+            T3 = "Der Text t ist %s.\n" % lit_text(t3)
+            for i3 in sorted(set([1, len(t3), (len(t3) + 1) // 2])):
+                add("loescheT", "duden loescheT %s %d" % (enc_ints(t3), i3), T3 + "Lösche das Element an der Stelle %d aus t.\nSchreibe t auf eine Zeile.\n" % i3, show_text)
+                add("einfuegenT", "duden einfuegenT %s %d 88,89" % (enc_ints(t3), i3), T3 + 'Setze "XY" an die Stelle %d von t.\nSchreibe t auf eine Zeile.\n' % i3, show_text)
+                add("einfuegenC", "duden einfuegenT %s %d 90" % (enc_ints(t3), i3), T3 + "Setze 'Z' an die Stelle %d von t.\nSchreibe t auf eine Zeile.\n" % i3, show_text)
+                for j3 in sorted(set([i3, len(t3)])):
+                    add("loescheBereichT", "duden loescheBereichT %s %d %d" % (enc_ints(t3), i3, j3),
+                        T3 + "Lösche alle Elemente im Bereich von %d bis %d aus t.\nSchreibe t auf eine Zeile.\n" % (i3, j3), show_text)
+        for t4, u4 in (("aa", "a"), ("aaa", "aa"), ("abab", "ab"), ("xaab", "ab"), ("ab", "ab"), ("ab", "ba"), ("abcab", "ab"), ("a,b,,c", ","), ("ab--cd--", "--"), ("--ab", "--")):
+            t4c, u4c = [ord(x) for x in t4], [ord(x) for x in u4]
+            d4 = "Der Text t ist %s.\nDer Text u ist %s.\n" % (lit_text(t4c), lit_text(u4c))
+            add("finde", "duden finde %s %s" % (enc_ints(t4c), enc_ints(u4c)), d4 + "Die Zahlen Liste r ist alle Indizes vom Subtext u in t.\n" + p_list("r"), show_list)
+            if len(u4c) >= 2:
+                add("spalteText", "duden spalteText %s %s" % (enc_ints(t4c), enc_ints(u4c)), d4 + "Die Text Liste r ist t an u gespalten.\n" + p_textlist("r"), show_textlist)
         # numbers (Duden/Mathe)
         pool = [0, 1, -1, 2, 7, -7, 12, 18, 100, 360, 97, 2 ** 31]
         a, b, c3 = pool[rng.below(len(pool))], pool[rng.below(len(pool))], pool[rng.below(len(pool))]
